@@ -178,6 +178,53 @@ func runC01(cfg Cfg, keys []string, ops []Op, res *TaskResult) *Violation {
 	return v
 }
 
+// runC01Quiet: the same sequences, but the caller reads nothing until the last operation has returned (the reads of
+// the oracle after every step touch read buffers, pooled records and iterators: whatever a write leaves behind for the
+// NEXT WRITE to trip over would be refreshed by them). Levels of depth 2..d, since prefixes are not judged here.
+func runC01Quiet(cfg Cfg, keys []string, ops []Op, res *TaskResult) *Violation {
+	ops = append([]Op{}, ops...)
+	for i := range ops {
+		if ops[i].K == "batch" {
+			ops[i].Arg |= 2 // no Batch.Get between the staging calls either
+		}
+	}
+	v := runC01QuietInner(cfg, keys, ops, res)
+	if v != nil {
+		v.Detail = fmt.Sprintf("cfg=%s trace=[%s] (quiet: no reads before the end)\n%s", cfg, traceString(ops), v.Detail)
+		v.Replay = mustJSON(seqReplay{Engine: "quiet", Prop: "C01", Cfg: cfg, Keys: keys, Ops: ops, Trace: traceString(ops)})
+	}
+	return v
+}
+
+func runC01QuietInner(cfg Cfg, keys []string, ops []Op, res *TaskResult) *Violation {
+	return RunTrace(cfg, keys, ops, res, func(w *World, i int, op Op, ar ApplyResult) *Violation {
+		if cls := errClass(ar.Err); cls == "panic" {
+			return viol("C01", "panic", "panic:"+op.K, fmt.Sprintf("step %d %s (no reads in between): %s", i, op, panicDetail(ar.Err)))
+		}
+		if ar.Clause != "" {
+			return viol("C01", ar.Clause, ar.Clause+":"+errClass(ar.Err), fmt.Sprintf("step %d %s (no reads in between): %s", i, op, ar.Detail))
+		}
+		if i < len(ops)-1 {
+			return nil
+		}
+		res.Evals++
+		res.Nontrivial++
+		res.States = append(res.States, w.StateHash())
+		if c, d := w.CheckReads(); c != "" {
+			return viol("C01", c, c+":quiet-after-"+op.K, fmt.Sprintf("after %d operations without any read in between, last %s: %s\nmodel=%s", len(ops), op, d, modelString(w.Model)))
+		}
+		return nil
+	})
+}
+
+func quietLevels(maxDepth int) []seqLevel {
+	var out []seqLevel
+	for d := 2; d <= maxDepth; d++ {
+		out = append(out, seqLevel{Name: fmt.Sprintf("quiet-d%d", d), Cfgs: bothPools(defaultCfg), Keys: keysAB, Alpha: tinyAlphabet, Depth: d, Dev: 2, Run: runC01Quiet})
+	}
+	return out
+}
+
 func init() {
 	register(&Check{
 		Prop:   "C01",
@@ -190,7 +237,7 @@ func init() {
 		},
 		Tasks: func(tier string) []Task {
 			if tier == "quick" {
-				return seqTasks("C01", []seqLevel{
+				return seqTasks("C01", append([]seqLevel{
 					{Name: "long-keys-d5", Cfgs: longKeyCfgs(), Keys: c18LongKeys, Alpha: longKeyMergeAlphabet, Depth: 5, Dev: 3, Run: runC01},
 					{Name: "same-offset-d6", Cfgs: []Cfg{blockCfg()}, Keys: keysAB, Alpha: sameOffsetAlphabet, Depth: 6, Dev: 6, Run: runC01},
 					{Name: "tiny-d3b2", Cfgs: tinyCfgs(), Keys: keysAB, Alpha: tinyAlphabet, Depth: 3, Dev: 2, Run: runC01},
@@ -200,14 +247,14 @@ func init() {
 					binaryKeyLevel(runC01),
 					{Name: "many-files-d4", Cfgs: []Cfg{manyFilesCfg()}, Keys: keysAB, Alpha: manyFilesAlphabet, Depth: 4, Dev: 4, Run: runC01},
 					{Name: "fault-d3", Cfgs: c01FaultCfgs(), Keys: keysAB, Alpha: c01FaultAlphabet, Depth: 3, Dev: 3, Run: runC01Fault},
-				})
+				}, quietLevels(4)...))
 			}
 			bt := blockCfg()
 			bt2 := bt
 			bt2.Index = 1
 			bt3 := bt
 			bt3.IO = 1
-			return seqTasks("C01", []seqLevel{
+			return seqTasks("C01", append([]seqLevel{
 				{Name: "long-keys-d6", Cfgs: longKeyCfgs(), Keys: c18LongKeys, Alpha: longKeyMergeAlphabet, Depth: 6, Dev: 3, Run: runC01},
 				{Name: "same-offset-d7", Cfgs: []Cfg{blockCfg()}, Keys: keysAB, Alpha: sameOffsetAlphabet, Depth: 7, Dev: 7, Run: runC01},
 				{Name: "tiny-d4b2", Cfgs: tinyCfgs(), Keys: keysAB, Alpha: tinyAlphabet, Depth: 4, Dev: 2, Run: runC01},
@@ -216,7 +263,7 @@ func init() {
 				{Name: "many-files-d4", Cfgs: []Cfg{manyFilesCfg()}, Keys: keysAB, Alpha: manyFilesAlphabet, Depth: 4, Dev: 4, Run: runC01},
 				{Name: "fault-d4", Cfgs: c01FaultCfgs(), Keys: keysAB, Alpha: c01FaultAlphabet, Depth: 4, Dev: 4, Run: runC01Fault},
 				binaryKeyLevel(runC01),
-			})
+			}, quietLevels(5)...))
 		},
 		Bounds: func(tier string) map[string]any {
 			m := map[string]any{}
@@ -236,6 +283,10 @@ func init() {
 			json.Unmarshal(raw, &e)
 			if e.Engine == "fault" {
 				seqReplayMain(raw, runC01Fault)
+				return
+			}
+			if e.Engine == "quiet" {
+				seqReplayMain(raw, runC01Quiet)
 				return
 			}
 			seqReplayMain(raw, runC01)
